@@ -197,8 +197,9 @@ def gen_len_cusps(ctx):
     for _ in range(30 if ctx.quick() else 600):
         a = F(rng.randint(3, 13), 16)
         kind = rng.choice(["cusp", "cusp", "double-back"])
-        # (nearly cusped curves of kind "cusp" are a FIXED corpus, see near_cusp_corpus: known finding F21)
-        eps = F(0) if kind == "cusp" else rng.choice([F(0), F(1, 2 ** 8), F(1, 2 ** 12)])
+        # (curves whose speed NEARLY vanishes are a FIXED corpus, see near_cusp_corpus: known finding F21)
+        eps = F(0)            # exact zero of the speed only: every NEARLY vanishing speed is in the fixed corpus (F21)
+        rng.choice([0, 1, 2])  # (keeps the random stream of earlier versions aligned)
         if rng.random() < 0.5:
             a = F(rng.randint(3 * 17, 13 * 17), 16 * 17)            # not a break point of the bisection
         deg_p = rng.randint(1, 3)
@@ -250,6 +251,24 @@ def near_cusp_corpus():
             continue
         n, rows = _cusp_curve(a, eps, p, q)
         out.append({"n": n, "rows": rows, "a": a, "kind": "near-cusp", "eps": eps, "index": len(out)})
+    # ... and 80 straight curves that NEARLY double back, B' = (s - a) p(s) (1, c) + (0, eps) (own PRNG: the first 160 are unchanged)
+    rng2 = random.Random(20261003)
+    while len(out) < 240:
+        a = F(rng2.randint(3 * 17, 13 * 17), 16 * 17) if rng2.random() < 0.5 else F(rng2.randint(3, 13), 16)
+        eps = rng2.choice([F(1, 2 ** 8), F(1, 2 ** 12), F(1, 2 ** 16)])
+        p = [F(rng2.randint(-8, 8), 2) for _ in range(rng2.randint(1, 3) + 1)]
+        c_ = F(rng2.randint(-4, 4), 2)
+        if not any(p):
+            continue
+        dx = oq.poly_mul([-a, F(1)], p)
+        dy = [c_ * v for v in dx]
+        dy = [dy[0] + eps] + list(dy[1:])
+        integ = lambda d: [F(0)] + [v / (i + 1) for i, v in enumerate(d)]
+        n = len(dx)
+        rows = [[F(float(v)) for v in oq.from_power(integ(dx), n)], [F(float(v)) for v in oq.from_power(integ(dy), n)]]
+        if all(len(set(r)) == 1 for r in rows):
+            continue
+        out.append({"n": n, "rows": rows, "a": a, "kind": "near-double-back", "eps": eps, "index": len(out)})
     return out
 
 
